@@ -23,7 +23,7 @@ WRITERS = {
     ('Tableau.__init__', '=', ('PREMATURE',)): [],
     ('Tableau.__init__', '|=', ('HAS_STEP_LIMIT',)): [('maxsteps is not None and maxsteps > 0', 'maxsteps and maxsteps > 0')],
     ('Tableau.__init__', '|=', ('HAS_TIME_LIMIT',)): [('timeout is not None and timeout > 0', 'timeout and timeout > 0')],
-    ('Tableau.step', '&=~', ('PREMATURE',)): [('entry is None', 'not entry'), ('not self._is_max_steps_exceeded()',)],
+    ('Tableau.step', '&=~', ('PREMATURE',)): [],     # its conditions are decided semantically by the fold of step() (R2)
     ('Tableau.finish', '|=', ('FINISHED',)): [],
     ('Tableau.build_trunk', '|=', ('STARTED', 'TRUNK_BUILT')): [],
     ('Tableau.__listen_on.<locals>.after_rule_apply', '|=', ('STARTED',)): [],
@@ -83,22 +83,16 @@ def run(ctx, rep):
                         f'the reviewed flag write {key[1]} {"|".join(key[2])} in {key[0]} is gone')
     rep.floor('C17.R1', 'flag writes', len(writes), 9)
 
-    R2 = rep.rule('C17.R2', 'step() and finish() start with the FINISHED guard; finish() sets FINISHED before any other effect')
+    R2 = rep.rule('C17.R2', 'step() and finish() folded over all lifecycle states: no effect once FINISHED; finish() sets FINISHED before any '
+                            'post-build task, builds models iff invalid and enabled, the tree unless timed out, then stats and AFTER_FINISH')
+    for fold in (lifecycle.fold_step, lifecycle.fold_finish):
+        res, cons = fold(m)
+        rep.consult(*cons)
+        for ok, case, detail in res:
+            rep.instance(R2, ok=ok, sample=dict(fold=fold.__name__, case=case), nontrivial=(fold.__name__, case))
+            if not ok:
+                rep.finding(R2, f'C17.R2/{fold.__name__[5:]}/{case}', cons[0].split(' ')[0], f'Tableau.{fold.__name__[5:]}', f'{case}: {detail}')
     step = m.func(TAB, 'Tableau.step')
-    finish = m.func(TAB, 'Tableau.finish')
-    rep.consult(m.loc(TAB, step) + ' Tableau.step', m.loc(TAB, finish) + ' Tableau.finish')
-    for name, fn in (('step', step), ('finish', finish)):
-        ok = is_finished_guard(first_stmt(fn))
-        rep.instance(R2, ok=ok, nontrivial=f'{name}-guard')
-        if not ok:
-            rep.finding(R2, f'C17.R2/{name}/no-finished-guard', m.loc(TAB, fn), f'Tableau.{name}',
-                        f'{name}() no longer starts with `if self.flag.FINISHED in self.flag: return`')
-    b = astq.stmts(finish)
-    ok = len(b) > 1 and astq.u(b[1]) == 'self.flag |= self.flag.FINISHED'
-    rep.instance(R2, ok=ok, nontrivial='finish-sets-first')
-    if not ok:
-        rep.finding(R2, 'C17.R2/finish/finished-not-set-first', m.loc(TAB, finish), 'Tableau.finish',
-                    'FINISHED is not set immediately after the guard (a raising post-build task would leave the tableau unfinished)')
 
     R3 = rep.rule('C17.R3', 'rule application in step() is reachable only through `not _is_max_steps_exceeded()`; '
                             'that predicate is HAS_STEP_LIMIT and len(history) >= max_steps')
@@ -108,56 +102,15 @@ def run(ctx, rep):
         rep.instance(R3, ok=ok, nontrivial=case)
         if not ok:
             rep.finding(R3, f'C17.R3/{case}', cons[0], 'Tableau._is_max_steps_exceeded', f'{case}: {detail}')
-    pm = astq.parent_map(step)
-    applies = [c for c in astq.calls(step) if astq.call_name(c).endswith('.rule.apply') or astq.call_name(c).endswith('.apply')]
-    astq.need(applies, 'Tableau.step: no rule.apply call found')
-    for c in applies:
-        g = guard_texts(astq.guards_of(step, astq.stmt_of(pm, c), pm), True)
-        ok = bool({'entry is not None', 'entry'} & g)
-        rep.instance(R3, ok=ok, nontrivial='apply-needs-entry')
-        if not ok:
-            rep.finding(R3, 'C17.R3/step/apply-unguarded', m.loc(TAB, c), 'Tableau.step', 'rule.apply is not guarded by `entry is not None`')
-    ent = [(t, st) for t, st in astq.stores(step) if isinstance(t, ast.Name) and t.id == 'entry']
-    astq.need(ent, 'Tableau.step: no assignment to `entry`')
-    for t, st in ent:
-        val = astq.u(st.value) if isinstance(st, ast.Assign) else astq.u(st)
-        if val == 'None':
-            continue
-        g = guard_texts(astq.guards_of(step, st, pm), True)
-        ok = val == 'self.next()' and 'not self._is_max_steps_exceeded()' in g
-        rep.instance(R3, ok=ok, sample=dict(assignment=astq.u(st), guards=sorted(g)), nontrivial=f'entry={val}')
-        if not ok:
-            rep.finding(R3, f'C17.R3/step/entry-source/{val}', m.loc(TAB, st), 'Tableau.step',
-                        f'`{astq.u(st)}`: a step entry is obtained without the step-limit test dominating it')
+    # (the dominance of the limit test over next()/apply() is decided by the fold of step() above: R2)
 
-    R4 = rep.rule('C17.R4', '_check_timeout: sets TIMED_OUT, calls finish(), then raises; step() calls it before any work')
-    ct = m.func(TAB, 'Tableau._check_timeout')
-    rep.consult(m.loc(TAB, ct) + ' Tableau._check_timeout')
-    seq = []
-    for n in ast.walk(ct):
-        if isinstance(n, ast.AugAssign) and 'TIMED_OUT' in astq.u(n):
-            seq.append((n.lineno, n.col_offset, 'set'))
-        elif isinstance(n, ast.Call) and astq.call_name(n) == 'self.finish':
-            seq.append((n.lineno, n.col_offset, 'finish'))
-        elif isinstance(n, ast.Raise):
-            seq.append((n.lineno, n.col_offset, 'raise'))
-    order = [x[2] for x in sorted(seq)]
-    ok = order == ['set', 'finish', 'raise']
-    rep.instance(R4, ok=ok, sample=dict(order=order), nontrivial='timeout-order')
-    if not ok:
-        rep.finding(R4, 'C17.R4/_check_timeout/order', m.loc(TAB, ct), 'Tableau._check_timeout',
-                    f'expected set TIMED_OUT -> finish() -> raise, found {order}')
-    raises = [n for n in ast.walk(ct) if isinstance(n, ast.Raise)]
-    ok = all('Timeout' in astq.u(r) for r in raises)
-    rep.instance(R4, ok=ok, nontrivial='timeout-error-type')
-    if not ok:
-        rep.finding(R4, 'C17.R4/_check_timeout/error', m.loc(TAB, ct), 'Tableau._check_timeout', 'does not raise the timeout error')
-    # step: _check_timeout() precedes next()/apply
-    pos = {astq.call_name(c): (c.lineno, c.col_offset) for c in astq.calls(step)}
-    ok = 'self._check_timeout' in pos and 'self.next' in pos and pos['self._check_timeout'] < pos['self.next']
-    rep.instance(R4, ok=ok, nontrivial='step-checks-timeout-first')
-    if not ok:
-        rep.finding(R4, 'C17.R4/step/timeout-not-first', m.loc(TAB, step), 'Tableau.step', '_check_timeout() does not precede next()')
+    R4 = rep.rule('C17.R4', '_check_timeout folded: no effect without a limit or within it; beyond it TIMED_OUT is set, then finish(), then the timeout error; step() checks it first (fold of step)')
+    res, cons = lifecycle.fold_check_timeout(m)
+    rep.consult(*cons)
+    for ok, case, detail in res:
+        rep.instance(R4, ok=ok, nontrivial=('timeout', case))
+        if not ok:
+            rep.finding(R4, f'C17.R4/_check_timeout/{case}', cons[0].split(' ')[0], 'Tableau._check_timeout', f'{case}: {detail}')
 
     R5 = rep.rule('C17.R5', 'argument/logic setters and build_trunk refuse when STARTED before any mutation; rule '
                             'collections: every mutator is @locking (or delegates to one), __setattr__ is locking, '
